@@ -53,6 +53,16 @@ def primary_size(key: str) -> bool:
     return bool(re.search(r"D=1,N=16|D=2,N=8|D=3,N=6", key)) or "N=" not in key
 
 
+NONLINEAR_FORMS = ("construct", "eager")
+KOLMOGOROV = ("stepper.KolmogorovFlowVorticity", "stepper.KolmogorovFlowVelocity", "stepper.generic.GeneralVorticityConvectionStepper")
+
+
+def starts(*prefixes):
+    return lambda k, m: k.startswith(prefixes)
+
+
+SMALL = dict(seeds=16, groups=None, crash_points=32, switch_points=24)
+
 PROPERTIES = {
     "C01": dict(
         title="linear steppers: exact solution whatever happened before / concurrently",
@@ -60,32 +70,104 @@ PROPERTIES = {
         quick=dict(seeds=24, groups=None),
         thorough=dict(seeds=400, groups=None),
     ),
+    "C02": dict(
+        title="ETDRK integrators of order 0-4 (directly and through every nonlinear stepper class): coefficients and steps",
+        select=lambda k, m: k.startswith("etdrk") or (cls(k) is not None and cls(k) not in LINEAR and form(k) in NONLINEAR_FORMS),
+        quick=dict(seeds=20, groups=24),
+        thorough=dict(seeds=400, groups=None),
+    ),
+    "C03": dict(
+        title="nonlinear functions called directly (every class, two dealiasing fractions, both resolutions) and through the nonlinear steppers",
+        select=lambda k, m: k.startswith(("nonlin:", "nonlin_fun[")) or (cls(k) is not None and cls(k) not in LINEAR and form(k) == "eager"),
+        quick=dict(seeds=20, groups=16),
+        thorough=dict(seeds=400, groups=None),
+    ),
+    "C04": dict(
+        title="grids, wavenumbers, FFT pairs, scaling arrays, filter masks, Fourier coefficients",
+        select=starts("grid[", "grid-xy", "wavenumbers[", "fft-pair", "scaling-array", "fourier-coefficients", "low-pass-mask", "spectral[D"),
+        quick=SMALL,
+        thorough=dict(seeds=300, groups=None),
+    ),
+    "C05": dict(
+        title="derivative / Laplace operators, spectral derivative, Poisson solver, incompressibility projection",
+        select=starts("derivative-operator", "laplace-operator", "derivative[", "poisson[", "make-incompressible", "spectral[D"),
+        quick=SMALL,
+        thorough=dict(seeds=300, groups=None),
+    ),
     "C06": dict(
         title="eager / jit / vmap / scan / parameter-vmap / construct-inside-jit programs of every stepper",
         select=lambda k, m: cls(k) is not None and form(k) in ("eager", "jit", "vmap", "rollout", "param-vmap", "jit-construct", "shared-call", "repeated"),
         quick=dict(seeds=24, groups=28),
         thorough=dict(seeds=500, groups=None),
     ),
+    "C07": dict(
+        title="gradient and JVP programs of every stepper class",
+        select=lambda k, m: cls(k) is not None and form(k) in ("grad", "jvp"),
+        quick=dict(seeds=20, groups=36),
+        thorough=dict(seeds=400, groups=None),
+    ),
+    "C08": dict(
+        title="one step of every stepper class and option twin, in 1-3 dimensions",
+        select=lambda k, m: cls(k) is not None and form(k) in ("eager", "shared-call"),
+        quick=dict(seeds=20, groups=28),
+        thorough=dict(seeds=400, groups=None),
+    ),
+    "C12": dict(
+        title="Kolmogorov steppers, the generic vorticity stepper with injection (several forced modes and scales per grid), ForcedStepper",
+        select=lambda k, m: cls(k) in KOLMOGOROV or k.startswith(("forced", "shared-forced", "rollout-aux", "nonlin:VorticityKolmogorov", "nonlin:Projected3dKolmogorov")),
+        quick=SMALL,
+        thorough=dict(seeds=300, groups=None),
+    ),
+    "C13": dict(
+        title="generic, normalized and difficulty stepper families and the conversion functions",
+        select=lambda k, m: (cls(k) or "").startswith("stepper.generic.") or k.startswith(("conversions[", "generic-utils", "eager:DiffultyLinearStepperSimple")),
+        quick=dict(seeds=20, groups=28),
+        thorough=dict(seeds=400, groups=None),
+    ),
     "C14": dict(
         title="rollout / repeat / stack_sub_trajectories / RepeatedStepper / ForcedStepper / build_ic_set",
         select=lambda k, m: form(k) in (
             "rollout", "repeated", "forced", "repeat", "rollout-aux", "stack_sub_trajectories", "build_ic_set", "build_ic_set/GRF",
-            "rollout-n", "repeated-n", "shared-repeated", "shared-forced",
+            "rollout-n", "repeated-n", "shared-repeated", "shared-forced", "forced-step",
         ),  # fmt: skip
         quick=dict(seeds=24, groups=36),
         thorough=dict(seeds=400, groups=None),
     ),
+    "C15": dict(
+        title="map_between_resolutions (up/down, odd/even, parity collisions) and FourierInterpolator",
+        select=starts("resample[", "interpolate[", "interpolation[D"),
+        quick=SMALL,
+        thorough=dict(seeds=300, groups=None),
+    ),
+    "C16": dict(
+        title="every exported metric, one call per operation, several bands and derivative orders",
+        select=starts("metric:", "metrics[D"),
+        quick=SMALL,
+        thorough=dict(seeds=300, groups=None),
+    ),
+    "C17": dict(
+        title="get_spectrum: power / amplitude x sum / average x two resolutions x 1-3 dimensions",
+        select=starts("spectrum[", "spectral[D"),
+        quick=SMALL,
+        thorough=dict(seeds=300, groups=None),
+    ),
     "C18": dict(
         title="initial-condition generators: output is a function of (options, N, key) only",
-        select=lambda k, m: any(e.startswith("exponax.ic.") or e == "exponax.build_ic_set" for e in m["exports"]),
+        select=lambda k, m: any(e.startswith("exponax.ic.") or e == "exponax.build_ic_set" for e in m["exports"]) and not k.startswith("reject:"),
         quick=dict(seeds=24, groups=None),
         thorough=dict(seeds=800, groups=None),
     ),
     "C19": dict(
         title="coefficients and steps follow the precision session in force, across session switches",
-        select=lambda k, m: (cls(k) is not None and form(k) in ("construct", "eager", "jit-construct", "grad")) or k == "etdrk",
+        select=lambda k, m: (cls(k) is not None and form(k) in ("construct", "eager", "jit-construct", "grad")) or k.startswith("etdrk"),
         quick=dict(seeds=24, groups=28),
         thorough=dict(seeds=500, groups=None),
+    ),
+    "C20": dict(
+        title="malformed states and unsupported configurations stay rejected (same exception type) in every history",
+        select=lambda k, m: k.startswith("reject:") or (cls(k) is not None and form(k) == "eager" and "twin" not in k and primary_size(k)),
+        quick=dict(seeds=16, groups=None, crash_points=32, switch_points=24),
+        thorough=dict(seeds=300, groups=None),
     ),
 }
 
